@@ -196,7 +196,7 @@ def realisations(tp, t):
         yield "mixed-delay-first", [(t - 0.5, group_text(tp[0], "0.5 s")), (t, texts[1])]
 
 
-def worker_e2e(rec, shard, nshards, length, two_marker_tps, seed):
+def worker_e2e(rec, shard, nshards, length, two_marker_tps, all_positions, seed):
     import pandas as pd
     from hed import load_schema_version
     from hed.models.tabular_input import TabularInput
@@ -266,6 +266,31 @@ def worker_e2e(rec, shard, nshards, length, two_marker_tps, seed):
                 rec.violation(f"C10:e2e:{worst_kind(combo)}:expected {sum(c for c, _ in want)} got {len(temporal)}",
                               rows=srows, realisation=kinds, expected=[(c, sorted(a)) for c, a in want],
                               got_rows=got_rows, messages=[i.get("message", "")[:80] for i in temporal])
+            # bystander: a row that fails its own validation and carries no marker, inserted anywhere, changes nothing for
+            # the other rows (whether or not a failed row takes part in the bookkeeping - it has nothing to contribute)
+            if ok and any("delay" in k for k, _ in combo):
+                positions = range(len(srows) + 1) if all_positions else (len(srows),)
+                for p, btext in [(p, b) for p in positions for b in (("Zzqnonsense", "Red") if all_positions else ("Zzqnonsense",))]:
+                    t_ins = (float(srows[p][0]) if p < len(srows) else float(srows[-1][0]) + 1.0)
+                    brows = srows[:p] + [(t_ins, btext)] + srows[p:]
+                    bdf = pd.DataFrame({"onset": [str(r[0]) for r in brows], "HED": [r[1] for r in brows]})
+                    rec.n("evaluations")
+                    rec.n("transitions", len(hist))
+                    rec.n("distinct_nontrivial")
+                    try:
+                        bissues = TabularInput(bdf).validate(schema, extra_def_dicts=dd)
+                    except Exception as e:
+                        rec.violation("C10:e2e:raises:" + type(e).__name__, rows=brows, error=repr(e)[:300])
+                        continue
+                    bt = sorted(i.get("ec_row") for i in bissues if i.get("code") == "TEMPORAL_TAG_ERROR")
+                    shifted = sorted(r + 1 if r - 2 >= p else r for r in got_rows)
+                    # rows of one time point are interchangeable as the label of its issues: compare per time point
+                    tp_of = {pos[i] + 2: k for k, idxs in enumerate(tp_rows) for i in idxs}
+                    back = lambda r: tp_of.get(r - 1 if r - 2 > p else r, "bystander" if r - 2 == p else None)
+                    if sorted(str(back(r)) for r in bt) != sorted(str(tp_of.get(r)) for r in got_rows):
+                        rec.violation("C10:e2e:failed-bystander-row-changes-bookkeeping", rows=brows, inserted_at=p,
+                                      without=got_rows, expected=shifted, got_rows=bt)
+                        break
         if hi % 211 == 0:
             rec.sample({"seam": "end-to-end", "history": hist_repr(hist)})
 
@@ -289,7 +314,7 @@ def run(ctx):
                                "e2e_history_length": l3, "e2e_two_marker_timepoints": len(e2e_two),
                                "names": NAMES, "marks": MARKS}
     ctx.parallel(worker_narrow, l1, l2, ctx.seed)
-    ctx.parallel(worker_e2e, l3, e2e_two, ctx.seed)
+    ctx.parallel(worker_e2e, l3, e2e_two, ctx.thorough, ctx.seed)
     ctx.rec.counts["states"] = len(ctx.rec.states)
 
 
